@@ -141,6 +141,11 @@ def scenarios(tier):
     green = [("test_a_pass", "pass", "none"), ("test_f_skip_would_fail", "fail_eq", "skip"), ("test_g_xfail_fails", "fail_eq", "xfail"), ("test_j_slow_fail", "fail_assert", "slow")]
     out.append((green, []))
     out.append((green, ["-k", "pass"]))
+    # names where one is a proper prefix of another (the runner selects the function to run by name)
+    for (b1, m1), (b2, m2) in [(("pass", "none"), ("fail_eq", "none")), (("fail_eq", "none"), ("pass", "none")), (("pass", "none"), ("pass", "xfail")), (("fail_eq", "none"), ("fail_eq", "xfail")),
+                               (("fail_eq", "skip"), ("pass", "none")), (("pass", "none"), ("fail_eq", "skip")), (("panic_index", "none"), ("pass", "xfail"))]:
+        out.append(([("test_p", b1, m1), ("test_p_longer", b2, m2)], []))
+        out.append(([("test_p_longer", b2, m2), ("test_p", b1, m1), ("test_p_longer_still", b1, m1)], []))
     # every single (body x marker) function alone
     singles = list(itertools.product(BODIES, MARKERS))
     if tier != "thorough":
@@ -217,7 +222,7 @@ def run(tier):
         "evaluations": n_fn,
         "distinct_nontrivial": len(sig_ok),
         "rule": "a 15-function test file covering body kinds (pass, assert_eq / assert / fail() failure, runtime panic, pass with output, and Result-returning tests that pass / fail an assertion / propagate an Err) x markers (none, @skip, @xfail, @slow) run "
-        "under 10 flag sets (none, --slow, -k matching 0 / some / all, -x, --slow with -k), all-green files (exit status 0), and single-function files for the (body x marker) "
+        "under 10 flag sets (none, --slow, -k matching 0 / some / all, -x, --slow with -k), all-green files (exit status 0), 14 files whose test names are proper prefixes of one another with different outcomes, and single-function files for the (body x marker) "
         "product (quick: every third; thorough: all, plus all two-function files over 3 bodies x 4 markers with --slow and -x); evaluations = selected test functions judged; "
         "non-trivial = (flag set, file shape) scenarios whose every verdict, count, exit status and execution set matched the reference model",
         "samples": [{"flags": f, "functions": [list(x) for x in fs][:4]} for fs, f in common.pick_samples(sc)],
